@@ -371,9 +371,12 @@ def program_layouts(chk, tier):
         ev = [{"e": "begin", "t": c["tid"]}]
         J = {j["name"]: j for j in c["jobs"]}
         for name in ("P", "L"):
-            perturbed.parse_ev(ev, D, ctr, r["jobs"][name]["src"], perturbed.cfgid(J[name]), r["jobs"][name])
-        ev.append({"e": "claim", "law": "sametree", "src": D(r["jobs"]["P"]["src"]), "cfg": perturbed.cfgid(J["P"]), "ci": True,
-                   "src2": D(r["jobs"]["L"]["src"]), "cfg2": perturbed.cfgid(J["L"])})
+            t = perturbed.parse_ev(ev, D, ctr, r["jobs"][name]["src"], perturbed.cfgid(J[name]), r["jobs"][name])
+            if t:
+                ev.append({"e": "print", "tree": t, "text": D(r["jobs"][name]["text"]), "tci": D(r["jobs"][name]["tci"])})
+        refs = {"src2": D(r["jobs"]["L"]["src"]), "cfg2": perturbed.cfgid(J["L"])}
+        ev.append({"e": "claim", "law": "sametree", "src": D(r["jobs"]["P"]["src"]), "cfg": perturbed.cfgid(J["P"]), "ci": True, **refs})
+        ev.append({"e": "claim", "law": "sametextci", "src": D(r["jobs"]["P"]["src"]), "cfg": perturbed.cfgid(J["P"]), **refs})
         events.extend(ev)
         live.append((c, r))
         chk.count(2)
@@ -508,6 +511,15 @@ def reader_walks(chk, tier):
 
 
 # ------------------------------------------------------------------ whole programs in fixed form (C05)
+# comment texts: after a C/c the text may look like a statement ("Call counter", "continue with") - still a comment
+FIXED_COMMENTS = {
+    "C": ["C comment 'x", "Call counter is reset here", "Continue with the next block", "Common block layout", "Character data follow", "Close(1)", "Case 1", "C"],
+    "c": ["c comment", "call this \"later\"", "continue", "contains nothing", "cycle", "complex numbers", "critical section", "c"],
+    "*": ["* star", "*", "* 'quote", "*call"],
+    "!": ["! bang", "!x", "! it's", "!"],
+}
+
+
 def fixed_render(stmts, wrap, cont, cstyle, salt):
     """Render logical statements in fixed form: wrap column, continuation character, comment style."""
     lines = []
@@ -538,10 +550,10 @@ def fixed_render(stmts, wrap, cont, cstyle, salt):
             if not text:
                 break
             if (k + salt + len(lines)) % 5 == 0:
-                lines.append({"C": "C comment 'x", "c": "c comment", "*": "* star", "!": "! bang"}[cstyle])
+                lines.append(FIXED_COMMENTS[cstyle][(k + salt) % len(FIXED_COMMENTS[cstyle])])
             first = False
         if (k + salt) % 7 == 0:
-            lines.append({"C": "C between", "c": "c", "*": "*", "!": "!x"}[cstyle])
+            lines.append(FIXED_COMMENTS[cstyle][(k * 3 + salt) % len(FIXED_COMMENTS[cstyle])])
     return "\n".join(lines) + "\n"
 
 
@@ -567,7 +579,8 @@ def program_fixed(chk, tier):
     cases = []
     for p in progs:
         srcs = {"free": p["src"]}
-        variants = [(72, "1", "C"), (40, "&", "*"), (17, "x", "!")] if tier != "quick" else [[(72, "1", "C"), (40, "&", "*"), (17, "$", "c")][p["id"] % 3]]
+        variants = [(72, "1", "C"), (40, "!", "*"), (17, "x", "!"), (30, "*", "c")] if tier != "quick" else \
+            [[(72, "1", "C"), (40, "!", "*"), (17, "$", "c"), (30, "c", "C")][p["id"] % 4]]
         for w, c, st in variants:
             srcs["fix%d" % w] = fixed_render(p["stmts"], w, c, st, p["id"])
         cases.append({"id": p["id"], "srcs": srcs})
